@@ -11,8 +11,8 @@ mutual
     | .linearRing _ => 1
     | .circularString _ => 1
     | .polygon _ _ => 1
-    | .compoundCurve gs => 1 + depL gs
-    | .curvePolygon gs => 1 + depL gs
+    | .compoundCurve _ => 2
+    | .curvePolygon gs => if gIsEmpty (.curvePolygon gs) then 1 else 1 + depL gs
     | .multiPoint gs => 1 + depL gs
     | .multiLineString gs => 1 + depL gs
     | .multiPolygon gs => 1 + depL gs
@@ -214,5 +214,74 @@ theorem checkContig_canonSec (z m : Bool) (gs : List G) (hk : gs.all isSimpleCur
       simp only [checkContig, seqOf_canonSec z m a hk.1, seqOf_canonSec z m b hk.2.1, maskS,
         List.getLast?_map, List.head?_map]
       cases h1 : (seqOf a).pts.getLast? <;> cases h2 : (seqOf b).pts.head? <;> simp [eq2D_mask, ih']
+
+/-! ### kinds and emptiness survive the round trip -/
+
+theorem isPoint_pointOfSeq (s : CSeq) : isPoint (pointOfSeq s) = true := by
+  unfold pointOfSeq; split
+  · split <;> rfl
+  · rfl
+
+theorem isPoint_canonG (d : Nat) (g : G) (h : isPoint g = true) : isPoint (canonG d g) = true := by
+  cases g <;> first | (simp [isPoint] at h; done) | simp [canonG, isPoint_pointOfSeq]
+
+theorem isLineString_canonG (d : Nat) (g : G) (h : isLineString g = true) : isLineString (canonG d g) = true := by
+  cases g <;> first | (simp [isLineString] at h; done) | simp [canonG, isLineString]
+
+theorem isPolygon_canonG (d : Nat) (g : G) (h : isPolygon g = true) : isPolygon (canonG d g) = true := by
+  cases g <;> first | (simp [isPolygon] at h; done) | (simp only [canonG]; split <;> rfl)
+
+theorem isCurve_canonG (d : Nat) (g : G) (h : isCurve g = true) : isCurve (canonG d g) = true := by
+  cases g <;> first | (simp [isCurve] at h; done) | simp [canonG, isCurve]
+
+theorem isSurface_canonG (d : Nat) (g : G) (h : isSurface g = true) : isSurface (canonG d g) = true := by
+  cases g <;> first | (simp [isSurface] at h; done) | (simp only [canonG]; split <;> rfl)
+
+theorem all_canon_of_all (d : Nat) (p : G → Bool) (hp : ∀ g, p g = true → p (canonG d g) = true) (gs : List G)
+    (h : gs.all p = true) : gs.all (fun g => p (canonG d g)) = true := by
+  induction gs with
+  | nil => rfl
+  | cons g gs ih =>
+    simp only [List.all_cons, Bool.and_eq_true] at h ⊢
+    exact ⟨hp g h.1, ih h.2⟩
+
+theorem gIsEmpty_canonSec (z m : Bool) (g : G) : gIsEmpty (canonSec z m g) = gIsEmpty g := by
+  cases g <;> simp [canonSec, gIsEmpty, maskS]
+
+theorem gsAllEmpty_canonSec (z m : Bool) (gs : List G) : gsAllEmpty (gs.map (canonSec z m)) = gsAllEmpty gs := by
+  induction gs with
+  | nil => rfl
+  | cons g gs ih => simp [gsAllEmpty, gIsEmpty_canonSec, ih]
+
+theorem gIsEmpty_canonG_curve (d : Nat) (g : G) (h : isCurve g = true) : gIsEmpty (canonG d g) = gIsEmpty g := by
+  cases g <;> first | (simp [isCurve] at h; done) | simp [canonG, gIsEmpty, ownS, maskS, gsAllEmpty_canonSec]
+
+theorem any_nonEmpty_canonGs (d : Nat) (gs : List G) (h : gs.all isCurve = true) :
+    (canonGs d gs).any (fun r => !gIsEmpty r) = gs.any (fun r => !gIsEmpty r) := by
+  induction gs with
+  | nil => rfl
+  | cons g gs ih =>
+    simp only [List.all_cons, Bool.and_eq_true] at h
+    simp [canonGs, gIsEmpty_canonG_curve d g h.1, ih h.2]
+
+theorem depL_pos (gs : List G) : 1 ≤ depL gs := by
+  induction gs with
+  | nil => simp [depL]
+  | cons g gs ih => simp only [depL]; omega
+
+theorem isNaNBits_nan : isNaNBits nanBits = true := by decide
+
+/-- the typed-collection reader on the writer's element list -/
+theorem readColl_spec (c : Cfg) (fuel : Nat) (p : G → Bool) (unit : Nat) (mk : List G → G) (h : Hdr)
+    (ho : h.order = c.order) (gs : List G) (r : List UInt8) (hn : gs.length < 4294967296)
+    (hlen : gs.length * unit ≤ (writeGs c gs).length)
+    (hN : readN (fun o bs => asChild p (readGeom fuel o bs)) gs.length c.order (writeGs c gs ++ r)
+            = .ok (canonGs c.dims gs, c.order, r)) :
+    readColl (readGeom fuel) p unit mk h (putU32 c.order gs.length ++ (writeGs c gs ++ r))
+      = .ok ((mk (canonGs c.dims gs), h.srid), c.order, r) := by
+  have hm : gs.length % 4294967296 = gs.length := by omega
+  have hg : ¬ ((writeGs c gs ++ r).length < gs.length * unit) := by
+    simp only [List.length_append]; omega
+  simp only [readColl, ho, readU32_putU32, hm, hg, if_false, hN]
 
 end GeosModel.WKB
